@@ -3,8 +3,14 @@ struct class against the Lean model (per leaf field), plus the Spec of C10 evalu
 
 Case grammar sent to `drv_serial`:
     SER <id>
+    DESC <desc>                          the class descriptor:  desc := L <k> <k field type tokens>  |  A <n> <desc>
+                                                                       |  ( <sizeof> { F <name> <offset in the struct> <desc> }* )
+    DICT <val>                           the whole `to_dict()`: val := V <k> <k value tokens>  |  [ <val>* ]  |  { { K <name> <val> }* }
     LEAF <absolute offset> <field type tokens> | <value tokens of the to_dict entry>        one per leaf field
     B0 <hex of the original message>
+    FD <probe> <hex of from_dict(v) | err> <val>     `from_dict` on the dictionary itself (`self`), on what json.loads
+                                         gives back (`json`), and on altered ones (strings as lists of characters, a key
+                                         missing, a struct-array list too short / too long, a value of the wrong shape)
     BD <hex of from_dict(to_dict(m)) | err>
     RT <trip name> <hex of the decoded message | err:Class>
     COPY <1 if the copy shares storage with the original>
@@ -43,6 +49,93 @@ def dict_leaf(d: Dict[str, Any], path: Tuple, name: str):
     for p in path:
         cur = cur[p]
     return cur[name]
+
+
+def desc_tokens(W: VC.World, cls) -> List[str]:
+    """the walk of `_fields_` that `_to_dict` / `_from_dict` perform, with the offsets ctypes reports"""
+    out = ["(", str(ctypes.sizeof(cls))]
+    for name, fty, off in W.fields(cls):
+        out += ["F", name, str(off)]
+        if fty[0] == "strct":
+            out += desc_tokens(W, W.structs[fty[1]])
+        elif fty[0] == "arr" and isinstance(fty[2], tuple):
+            out += ["A", str(fty[3])] + desc_tokens(W, W.structs[fty[2][1]])
+        else:
+            t = VC.tok_fty(fty).split()
+            out += ["L", str(len(t))] + t
+    out.append(")")
+    return out
+
+
+def val_tokens(W: VC.World, x) -> List[str]:
+    """a `to_dict()` result (or an altered one) as tokens"""
+    if isinstance(x, dict):
+        out = ["{"]
+        for k, v in x.items():
+            out += ["K", str(k)] + val_tokens(W, v)
+        return out + ["}"]
+    if isinstance(x, list) and any(isinstance(e, dict) for e in x):
+        out = ["["]
+        for e in x:
+            out += val_tokens(W, e)
+        return out + ["]"]
+    t = VC.tok_val(canon_val(W, x)).split()
+    return ["V", str(len(t))] + t
+
+
+def dict_variants(W: VC.World, cls, d: Dict[str, Any], rng) -> List[Tuple[str, Any]]:
+    """altered copies of a `to_dict()` result: every one is a value `from_dict` may be handed"""
+    import copy as _copy
+
+    def sites(cur, cl, path, acc):
+        for name, fty, _off in W.fields(cl):
+            if fty[0] == "strct":
+                acc.append(("struct", path + (name,)))
+                sites(cur[name], W.structs[fty[1]], path + (name,), acc)
+            elif fty[0] == "arr" and isinstance(fty[2], tuple):
+                acc.append(("sarr", path + (name,)))
+                for i in range(fty[3]):
+                    sites(cur[name][i], W.structs[fty[2][1]], path + (name, i), acc)
+            else:
+                acc.append(("str" if fty[0] == "str" else "leaf", path + (name,)))
+        return acc
+
+    def edit(path, fn):
+        v = _copy.deepcopy(d)
+        cur = v
+        for q in path[:-1]:
+            cur = cur[q]
+        fn(cur, path[-1])
+        return v
+
+    S = sites(d, cls, (), [])
+    out: List[Tuple[str, Any]] = []
+    strs = [p for k, p in S if k == "str"]
+    if strs:
+        v = _copy.deepcopy(d)
+        for p in strs:
+            if rng.random() < 0.7:
+                cur = v
+                for q in p[:-1]:
+                    cur = cur[q]
+                cur[p[-1]] = list(cur[p[-1]])
+        out.append(("chars", v))
+    anyp = [p for _k, p in S]
+    if anyp:
+        out.append(("missing", edit(rng.choice(anyp), lambda c, k: c.pop(k))))
+    sarrs = [p for k, p in S if k == "sarr"]
+    if sarrs:
+        out.append(("short", edit(rng.choice(sarrs), lambda c, k: c[k].pop())))
+        out.append(("long", edit(rng.choice(sarrs), lambda c, k: c[k].append(_copy.deepcopy(c[k][0])))))
+        out.append(("shape_sarr", edit(rng.choice(sarrs), lambda c, k: c.__setitem__(k, {"zz": 1}))))
+        out.append(("shape_elem", edit(rng.choice(sarrs), lambda c, k: c[k].__setitem__(rng.randrange(len(c[k])), 5))))
+    structs = [p for k, p in S if k == "struct"]
+    if structs:
+        out.append(("shape_struct", edit(rng.choice(structs), lambda c, k: c.__setitem__(k, 5))))
+    lf = [p for k, p in S if k in ("leaf", "str")]
+    if lf:
+        out.append(("shape_leaf", edit(rng.choice(lf), lambda c, k: c.__setitem__(k, {"zz": 1}))))
+    return out
 
 
 def canon_val(W: VC.World, x) -> tuple:
@@ -161,11 +254,26 @@ def run_case(cid: str, cls, m) -> List[str]:
     b0 = bytes(m)
     lines = [f"SER {cid}"]
     d = m.to_dict()
+    lines.append("DESC " + " ".join(desc_tokens(W, cls)))
+    lines.append("DICT " + " ".join(val_tokens(W, d)))
     for path, name, fty, off in leaves(W, cls):
         lines.append(f"LEAF {off} {VC.tok_fty(fty)} | {VC.tok_val(canon_val(W, dict_leaf(d, path, name)))}")
     lines.append("B0 " + VC.hx(b0))
     bd = _trip(lambda: cls.from_dict(m.to_dict()))
     lines.append("BD " + ("err" if bd.startswith("err") else bd))
+    import copy as _copy
+    import random as _random
+    import zlib as _zlib
+    vr = _random.Random(_zlib.crc32(b0 + cls.__name__.encode()))
+    probes = [("self", m.to_dict())]
+    try:
+        probes.append(("json", json.loads(m.to_json(minify=True))))
+    except Exception:  # noqa: BLE001
+        pass
+    probes += dict_variants(W, cls, m.to_dict(), vr)
+    for pname, v in probes:
+        toks = " ".join(val_tokens(W, v))
+        lines.append(f"FD {pname} " + _trip(lambda v=v: cls.from_dict(_copy.deepcopy(v))).split(":")[0] + " " + toks)
     lines.append("RT bytes " + _trip(lambda: cls.from_buffer_copy(bytes(m))))
     lines.append("RT dict " + bd)
     lines.append("RT json " + _trip(lambda: cls.from_json(m.to_json())))
